@@ -279,7 +279,7 @@ impl Check for C03 {
         "fault_enumeration"
     }
     fn rule(&self) -> String {
-        "for each attack configuration (n in {2,3}, corrupted garbler or evaluator, honest victims in both roles) every authenticated field of every online-phase message is altered, one per simulated run: 'wire shares' bit / MAC / both at every input register of the recipient; 'output wire shares' bit / MAC at every output register and recipient; 'labels' label at every input wire; 'preprocessed gates' a random byte of the row the evaluator opens (row index known from a probe in the bit-identical reference run), an unopened row, all four rows, a truncated row; the share bit garbled into the rows (tap at the live garbler: the row still decrypts, the MAC check must fire); 'lambda' value / label / both at every output register and recipient; 'masked inputs' equivocation to one recipient (n=3). Oracle: the honest party that consumes the altered value (computed by data flow, e.g. a label offset reaching an AND gate through XOR/NOT) returns Err; nobody returns a value outside the C02 set. evaluations = attacked runs; distinct = (configuration, site, field) with an effective fault".into()
+        "for each attack configuration (n in {2,3}, corrupted garbler or evaluator, honest victims in both roles) every authenticated field of every online-phase message is altered, one per simulated run: 'wire shares' bit / MAC / both at every input register of the recipient; 'output wire shares' bit / MAC at every output register and recipient; 'labels' label at every input wire; 'preprocessed gates' a random byte of the row the evaluator opens (row index known from a probe in the bit-identical reference run), an unopened row, all four rows, a truncated / emptied / shorter-than-tag row; the share bit garbled into the rows (tap at the live garbler: the row still decrypts, the MAC check must fire); 'lambda' value / label / both at every output register and recipient; 'masked inputs' equivocation to one recipient (n=3); a corrupted evaluator announcing a masked value for an honest party's input wire and using it itself (two taps, live). Oracle: the honest party that consumes the altered value (computed by data flow, e.g. a label offset reaching an AND gate through XOR/NOT) returns Err; nobody returns a value outside the C02 set. evaluations = attacked runs; distinct = (configuration, site, field) with an effective fault".into()
     }
     fn assumptions(&self) -> Vec<String> {
         vec![
